@@ -144,6 +144,13 @@ def main():
         return common.finish(rep)
     scns = scenrun.enumerate_scenarios(rep, "MC_XWorldCross", cfg(rep.tier), f"c09_{rep.tier}")
     findings = scenrun.evaluate(rep, scns, evaluate, procs=a.procs)
+
+    def _mut(s):
+        if s["pred"]["sig75"][0] <= 0:
+            return None
+        s["pred"]["c5"][0] = max(1, (s["pred"]["c5"][0] + 1) % 6)
+        return s
+    scenrun.self_test(rep, scns, evaluate, _mut, "canonical correlation of mode 1 changed by 1/5")
     findings += generic_alpha(rep, a)
     scenrun.report(rep, findings, TAGS)
     rep.exhaustive = True
